@@ -226,7 +226,7 @@ def run(rep):
                 if v_ is not None and v_ != ('sym', 'None') and not pq.mentions(v_, lambda z: z in (('sym', 'np.inf'), ('sym', 'inf'))):
                     bounded.append(f"Grid(.., {kw_}={show(v_)[:30]})")
     rep.check(not bounded, "R16.b", "gis/grid.py", "Catchment.intersect", "the weight grid has no finite data bounds (the data setter would clip the weights)",
-              "; ".join(sorted(set(bounded))[:3]), line=f.lineno)
+              "; ".join(sorted(set(bounded))[:3]), line=f.lineno, firm=True)
 
     # ---------------- voronoi ---------------------------------------------------------------------------------------------------
     vtop = body_stmts(fv["body"])
